@@ -141,6 +141,12 @@ def w_roundup(mon, ctx, rnd, i, n):
                 for prec in range(6):
                     mon.submit('roundUpStrNum', [s, prec])
     mon.submit('roundUpStrNum', ['12.345'])
+    if i == 0:
+        # the third parameter (how many decimals count as signal), below, at and above the precision asked for
+        for s in ('1.239', '0.1299', '7.5', '7.05', '12.3456789', '.999999', '59.99951', '0.00001', '9.9', '3599.999999', '1', '1.'):
+            for prec in range(6):
+                for maxdp in range(8):
+                    mon.submit('roundUpStrNum', [s, prec, maxdp])
 
 
 def w_format(mon, ctx, rnd, i, n):
